@@ -342,6 +342,9 @@ pub struct Scenario {
     pub schedule: Option<Schedule>,
     /// database reads are schedule points
     pub db_yields: bool,
+    /// C05: the scripted custom precompile panics at its n-th invocation by grevm (0 = never)
+    #[serde(default)]
+    pub precompile_panic_at: u8,
 }
 
 // ------------------------------------------------------------------------------------------
